@@ -206,6 +206,8 @@ pub struct Sim {
     pub disk: Disk,
     /// offered for cleanup at some point
     pub offered: Vec<bool>,
+    /// jobs whose cleanup offer first appeared with the last call
+    pub offered_now: Vec<usize>,
     pub acked: Vec<bool>,
     /// was in the ready set at some point
     pub was_ready: Vec<bool>,
@@ -266,6 +268,7 @@ impl Sim {
             val: vec![None; n],
             disk: cfg.disk.clone(),
             offered: vec![false; n],
+            offered_now: vec![],
             acked: vec![false; n],
             was_ready: vec![false; n],
             aborted: false,
@@ -290,6 +293,7 @@ impl Sim {
             val: self.val.clone(),
             disk: self.disk.clone(),
             offered: self.offered.clone(),
+            offered_now: vec![],
             acked: self.acked.clone(),
             was_ready: self.was_ready.clone(),
             aborted: self.aborted,
@@ -353,8 +357,12 @@ impl Sim {
         if self.dead {
             return;
         }
+        self.offered_now.clear();
         for id in self.eng.query_ready_for_cleanup() {
             let j = self.idx(&id);
+            if !self.offered[j] {
+                self.offered_now.push(j);
+            }
             self.offered[j] = true;
         }
         for id in self.eng.query_ready_to_run() {
